@@ -52,9 +52,9 @@ claimed = {
   note="Panic texts compared by class; unspecified evaluation orders are not generated; make sizes small or absurd; three nil-dereference findings (no explicit nil checks) listed in known_findings.json.",
   design="§3 C03"),
  "C10": dict(
-  technique="schedule exploration with a deterministic scheduler (rapid-drawn scripts and scheduling choices) over the lifted channel source, with a history monitor and a reference-model quiescence check",
-  text="z_chan.go from the working tree runs against stand-in pthread mutex/cond primitives whose every operation is a scheduling point; rapid draws thread scripts (send/recv/close/len/select/TrySelect over 1-3 channels of capacity 0-2) and all scheduling decisions incl. which waiter a signal wakes and spurious wake-ups; a monitor checks token conservation, FIFO, buffer bounds, close semantics, no pthread misuse, and that at quiescence no blocked operation is enabled in the Go channel model. Exploration: sampled schedules, with shrinking to minimal script+schedule.",
-  note="Decides the algorithm in z_chan.go as written, not the compiled artefact; schedules sampled not enumerated; one protocol-level finding (select on unbuffered channels) is listed and keyed separately.",
+  technique="schedule exploration with a deterministic scheduler (rapid-drawn scripts and scheduling choices) over the lifted channel source, with a history monitor and a reference-model quiescence check; differential testing of rapid-generated channel programs compiled by llgo (run repeatedly on hardware threads, schedule-independent summaries) against the gc build",
+  text="z_chan.go from the working tree runs against stand-in pthread mutex/cond primitives whose every operation is a scheduling point; rapid draws thread scripts (send/recv/close/len/select/TrySelect over 1-3 channels of capacity 0-2) and all scheduling decisions incl. which waiter a signal wakes and spurious wake-ups; a monitor checks token conservation, FIFO, buffer bounds, close semantics, no pthread misuse, and that at quiescence no blocked operation is enabled in the Go channel model. Exploration: sampled schedules, with shrinking to minimal script+schedule. A compiled job builds rapid-generated channel programs (16 templates: FIFO, exactly-once, close, select forms, capacity bound, publication) with the llgo under test at several optimisation levels, runs each binary repeatedly on hardware threads and compares the schedule-independent summaries with the gc build; a run that stays alive without consuming CPU is reported as a deadlock.",
+  note="The schedule job decides the algorithm in z_chan.go as written; the compiled job samples real interleavings without controlling them; schedules sampled not enumerated; one protocol-level finding (select on unbuffered channels) is listed and keyed separately.",
   design="§3 C10, Appendix A/B"),
  "C11": dict(
   technique="(a) schedule exploration with a deterministic scheduler over the lifted semaphore / notify-list source, with counting invariants and a quiescence (lost wake-up) check; (b) rapid-generated litmus programs compiled by the llgo under test and run on hardware threads, observed outcomes checked against the exhaustively enumerated set of sequentially consistent interleavings",
